@@ -1292,3 +1292,95 @@ def desugar_match(trees: Dict[str, ast.Module]) -> int:
             ast.fix_missing_locations(tree)
             n += 1
     return n
+
+
+# ----------------------------------------------------------------------------- NamedTuple records
+def desugar_namedtuples(trees: Dict[str, ast.Module], baseline: Optional[Set[str]] = None) -> List[str]:
+    """A *new* record type that only names the positions of a tuple (`class _X(NamedTuple): a: T; b: T`, no methods) is that tuple:
+    `_X(p, q)` / `_X(b=q, a=p)` is `(p, q)`; for a local bound once to such a constructor call (after the helpers that return one
+    have been inlined) `v.a` is `v[0]`.  Field reads on values whose construction is not visible in the function are left alone."""
+    baseline = load_baseline() if baseline is None else baseline
+    if not baseline:
+        return []
+    records: Dict[str, Tuple[List[str], Dict[str, ast.AST]]] = {}
+    for mname, tree in trees.items():
+        for st in tree.body:
+            if not isinstance(st, ast.ClassDef) or f"const:{mname}.{st.name}" in baseline:
+                continue
+            if any(b for b in baseline if b.startswith(f"{mname}.{st.name}.")):
+                continue            # a class of the pinned tree
+            if not any((isinstance(b, ast.Name) and b.id == "NamedTuple") or (isinstance(b, ast.Attribute) and b.attr == "NamedTuple") for b in st.bases):
+                continue
+            fields, defaults, plain = [], {}, True
+            for x in st.body:
+                if isinstance(x, ast.AnnAssign) and isinstance(x.target, ast.Name):
+                    fields.append(x.target.id)
+                    if x.value is not None:
+                        defaults[x.target.id] = x.value
+                elif isinstance(x, ast.Expr) and isinstance(x.value, ast.Constant):
+                    continue
+                else:
+                    plain = False
+            if plain and fields:
+                records[st.name] = (fields, defaults)
+    if not records:
+        return []
+
+    def as_tuple(call: ast.Call) -> Optional[ast.Tuple]:
+        name = call.func.id if isinstance(call.func, ast.Name) else None
+        if name not in records or any(isinstance(a, ast.Starred) for a in call.args) or any(k.arg is None for k in call.keywords):
+            return None
+        fields, defaults = records[name]
+        vals: Dict[str, ast.AST] = {}
+        for f_, a in zip(fields, call.args):
+            vals[f_] = a
+        for k in call.keywords:
+            if k.arg not in fields or k.arg in vals:
+                return None
+            vals[k.arg] = k.value
+        for f_ in fields:
+            if f_ not in vals:
+                if f_ in defaults:
+                    vals[f_] = copy.deepcopy(defaults[f_])
+                else:
+                    return None
+        return ast.copy_location(ast.Tuple(elts=[vals[f_] for f_ in fields], ctx=ast.Load()), call)
+
+    for tree in trees.values():
+        for fn in [x for x in ast.walk(tree) if isinstance(x, (ast.FunctionDef, ast.AsyncFunctionDef))]:
+            # locals bound exactly once, to a record constructor
+            typed: Dict[str, str] = {}
+            stores: Dict[str, int] = {}
+            for x in ast.walk(fn):
+                if isinstance(x, ast.Name) and isinstance(x.ctx, (ast.Store, ast.Del)):
+                    stores[x.id] = stores.get(x.id, 0) + 1
+            for st in ast.walk(fn):
+                if isinstance(st, ast.Assign) and len(st.targets) == 1 and isinstance(st.targets[0], ast.Name) and isinstance(st.value, ast.Call) \
+                        and isinstance(st.value.func, ast.Name) and st.value.func.id in records and stores.get(st.targets[0].id) == 1 \
+                        and st.targets[0].id not in {a.arg for a in fn.args.args + fn.args.kwonlyargs}:
+                    typed[st.targets[0].id] = st.value.func.id
+
+            class Fix(ast.NodeTransformer):
+                def visit_Attribute(self, node):
+                    self.generic_visit(node)
+                    if isinstance(node.ctx, ast.Load):
+                        rec = None
+                        if isinstance(node.value, ast.Name) and node.value.id in typed:
+                            rec = typed[node.value.id]
+                        elif isinstance(node.value, ast.Tuple) and getattr(node.value, "_record", None):
+                            rec = node.value._record
+                        if rec is not None and node.attr in records[rec][0]:
+                            return ast.copy_location(ast.Subscript(value=node.value, slice=ast.Constant(value=records[rec][0].index(node.attr)), ctx=ast.Load()), node)
+                    return node
+
+                def visit_Call(self, node):
+                    self.generic_visit(node)
+                    if isinstance(node.func, ast.Name) and node.func.id in records:
+                        t = as_tuple(node)
+                        if t is not None:
+                            t._record = node.func.id
+                            return t
+                    return node
+            Fix().visit(fn)
+        ast.fix_missing_locations(tree)
+    return sorted(records)
